@@ -205,4 +205,16 @@ var Controls = []Control{
 	{"C13", "refactored T07-1: join keeps the caller's slice", "join/join.go", `return &joinError\{errs: nonNil\}`, "return &joinError{errs: append(errs[:0], nonNil...)}", "R-OWNED-BRANCHES"},
 	{"C06", "refactored T01-4: zero precision ignored in the early-return form", "errbase/format_error.go", `hasWidthOrPrecision := \(okW && width > 0\) \|\| okP\n`, "hasWidthOrPrecision := (okW && width > 0) || (okP && width > 0)\n", "R-VERB-DISPATCH"},
 	{"C13", "refactored T07-4: one-error shortcut next to the nil shortcut", "errutil/utilities.go", `\tif joined == nil \{\n\t\t// No non-nil error: nothing to decorate\.\n\t\treturn nil\n\t\}\n`, "\tif joined == nil {\n\t\treturn nil\n\t}\n\tif len(errs) == 1 {\n\t\treturn withstack.WithStackDepth(errs[0], depth+1)\n\t}\n", "R-JOIN-NODE"},
+	{"C09", "refactored U10-1: link operands swapped at the shared helper's call", "errutil/format_error_special.go", `printOSOperation\(p, v\.Op, v\.Old, v\.New\)`, "printOSOperation(p, v.Op, v.New, v.Old)", "R-SPECIAL-TEXT"},
+	{"C09", "refactored U10-1: shared helper separates operands with a colon", "errutil/format_error_special.go", `format \+= " %s"`, `format += ":%s"`, "R-SPECIAL-TEXT"},
+	{"C03", "refactored U01-1: leaf predicate hoisted without the multi-cause conjunct", "errbase/format_error.go", `isLeaf := cause == nil && len\(causes\) == 0`, "isLeaf := cause == nil", "R-SPECIAL-LEAF"},
+	{"C01", "refactored U04-3: wrapper payload decoded only when it has bytes", "errbase/decode.go", `\tpayload := decodePayload\(ctx, enc\.Details\.FullDetails,\n\t\t"error while unmarshalling wrapper error: %\+v"\)\n`, "\tvar payload proto.Message\n\tif enc.Details.FullDetails != nil && len(enc.Details.FullDetails.Value) > 0 {\n\t\tpayload = decodePayload(ctx, enc.Details.FullDetails,\n\t\t\t\"error while unmarshalling wrapper error: %+v\")\n\t}\n", "R-SIBLING-GUARD"},
+	{"C20", "refactored U06-4: transport-code helper lets OK through", "grpc/middleware/server.go", `code != codes\.OK \{\n\t\treturn code`, "code != codes.Unknown {\n\t\treturn code", "R-GRPC-FLOW"},
+	{"C19", "refactored U09-4: appending helper keeps empty hints", "hintdetail/hintdetail.go", `\tif hint == "" \{\n\t\treturn hints\n\t\}\n`, "", "R-DEDUP"},
+	{"C17", "refactored U04-2: shared helper keys the registries by the original name", "errbase/encode.go", `return details, TypeKey\(details\.ErrorTypeMark\.FamilyName\)`, "return details, TypeKey(details.OriginalTypeName)", "R-REGISTRY-KEY"},
+	{"C11", "refactored U08-2: split helper cuts at the first colon", "withstack/reportable.go", `lineSep := strings\.LastIndexByte\(fileLine, ':'\)`, "lineSep := strings.IndexByte(fileLine, ':')", "R-STACK-PARSE"},
+	{"C05", "refactored U02-3: payload helper accepts an empty mark", "markers/markers.go", `\tif len\(m\.Types\) == 0 \{\n[^}]*?\n\t\treturn errorMark\{\}, false\n\t\}\n`, "", "R-BOUNDS"},
+	{"C10", "refactored U07-2: formatting helper skipped without arguments", "errutil/utilities.go", `\terr := newFormattedError\(format, args\)\n`, "\tvar err error = &leafError{redact.Sprint(redact.Safe(format))}\n\tif len(args) > 0 {\n\t\terr = newFormattedError(format, args)\n\t}\n", "R-FMT-PATH"},
+	{"C11", "refactored U08-3: extracted helper builds the frames itself", "withstack/reportable.go", `\t\treturn parsePrintedStack\(details\[0\]\)\n\t\}\n\treturn nil\n\}`, "\t\treturn &ReportableStackTrace{}\n\t}\n\treturn nil\n}", "R-ONE-PARSER"},
+	{"C11", "refactored U04-2: generic-path helper escapes the safe details", "errbase/encode.go", `\t\treturn s\.SafeDetails\(\)\n\t\}\n\treturn nil\n\}`, "\t\treturn append([]string(nil), s.SafeDetails()...)[:0]\n\t}\n\treturn nil\n}", "R-GENERIC-PATH"},
 }
